@@ -573,7 +573,7 @@ func TestVerif_C13(t *testing.T) {
 	run.Assume("every writer of a live dynsampler's GoalThroughputPerSec holds SamplerFactory.mutex (updatePeerCounts, getSharedDynsamplerAndRecorder), so reading it under that mutex at a joined point is race-free")
 	run.Assume("scripted peer.Peers: callbacks are invoked on membership change in new goroutines; GetPeers returns the current non-empty list or an error. Where a GetPeers call failed after the most recent membership change the property does not fix what count the node must assume: the current count and the last successfully observed count are both accepted")
 
-	run.Cases("histories", run.N(60, 1200), func(i int, rng *verifkit.Rand) { c13case(run, rng, i < 2) })
+	run.Cases("histories", run.N(200, 10000), func(i int, rng *verifkit.Rand) { c13case(run, rng, i < 2) })
 }
 
 func c13case(run *verifkit.Run, rng *verifkit.Rand, sample bool) {
